@@ -7,7 +7,8 @@
    identifiers each time, hence other set orders), with permuted creation orders, with permuted order-irrelevant lists
    (system.usage_patterns, usage_pattern.devices, jobs of one step), with two jobs carrying the same display name, and in
    sub-processes under other PYTHONHASHSEED values; every calculated value of every variant must equal the reference
-   build's.  The same after an edit history replayed on two builds.
+   build's.  The same after an edit history replayed on two builds, and after single input edits applied to several builds
+   (which must agree with one another and with a system given the value at creation).
 """
 import copy
 import json
@@ -98,8 +99,30 @@ def special_model():
     return m
 
 
+def special_model_2():
+    """one journey (hence its jobs) used by two usage patterns that have their own network, country and time zone: every
+    per-usage-pattern dictionary of the jobs has two entries, which carry the same identifier"""
+    m = {}
+    m["sto1"] = efx.new_obj("Storage", base_storage_need=[1, "TB"])
+    m["sv1"] = efx.new_obj("Server", storage="sto1")
+    m["j1"] = efx.new_obj("Job", server="sv1", data_transferred=[2, "MB"])
+    m["j2"] = efx.new_obj("Job", server="sv1", data_transferred=[300, "kB"], request_duration=[90, "min"])
+    m["s1"] = efx.new_obj("UsageJourneyStep", jobs=["j1", "j2"], user_time_spent=[30, "min"])
+    m["s2"] = efx.new_obj("UsageJourneyStep", jobs=["j1"], user_time_spent=[61, "min"])
+    m["uj1"] = efx.new_obj("UsageJourney", uj_steps=["s1", "s2"])
+    m["d1"] = efx.new_obj("Device")
+    m["n1"], m["n2"] = efx.new_obj("Network"), efx.new_obj("Network", bandwidth_energy_intensity=[0.3, "kWh/GB"])
+    m["c1"] = efx.new_obj("Country", tz="Europe/Paris")
+    m["c2"] = efx.new_obj("Country", tz="Asia/Kolkata", average_carbon_intensity=[400, "g/kWh"])
+    m["up1"] = efx.new_obj("UsagePattern", usage_journey="uj1", network="n1", country="c1", devices=["d1"], starts=[3, 1, 4, 1, 5])
+    m["up2"] = efx.new_obj("UsagePattern", usage_journey="uj1", network="n2", country="c2", devices=["d1"], starts=[2, 7, 1, 8],
+                           start="2025-01-01T05:00:00")
+    m["sys"] = efx.new_obj("System", usage_patterns=["up1", "up2"])
+    return m
+
+
 def model_of_seed(seed):
-    return special_model() if seed < 0 else prepared_model(random.Random(seed))
+    return {-1: special_model, -2: special_model_2}[seed]() if seed < 0 else prepared_model(random.Random(seed))
 
 
 def child_dump(seeds):
@@ -146,7 +169,7 @@ def run(tier, out):
         n_models = 20 if tier == "quick" else 300
         events, tid = [], 0
         refs = {}
-        for seed in [-1] + list(range(base, base + n_models)):
+        for seed in [-1, -2] + list(range(base, base + n_models)):
             rng = random.Random(seed)
             model = model_of_seed(seed)
             rng.random()
@@ -205,6 +228,39 @@ def run(tier, out):
             seq += 1
             events.append({"tid": tid, "seq": seq, "ev": "Sibling", "seed": seed, "variant": "edit-history-on-two-builds",
                            "differs": differing(efx.snapshot(ns, l_a, nm), efx.snapshot(ns, l_b, nm), nm)})
+            # a value given by an edit, on several builds: the builds must agree with one another and with a system that was given
+            # the value at creation (what an edit reaches may not depend on which entry a set or a dictionary yields first)
+            reach = efx.reachable(model)
+            cands = [(n, a) for n in sorted(reach) if model[n]["cls"] in ("Job", "UsageJourneyStep", "Server", "Storage")
+                     for a in sorted(model[n]["inp"])]
+            rng.shuffle(cands)
+            cands.sort(key=lambda x: model[x[0]]["cls"] != "Job")
+            builds = [efx.build(ns, model) for _ in range(3 if seed >= 0 else 6)]
+            m_cur = model
+            for n, a in cands[: (4 if seed >= 0 else 12)]:
+                mv = m_cur[n]["inp"][a]
+                e = ("input", n, a, [mv[0] * 2 + (1 if mv[0] == 0 else 0), mv[1]])
+                try:
+                    for b in builds:
+                        efx.apply_edit_live(ns, m_cur, b, e)
+                except Exception:
+                    break
+                m_cur = efx.apply_edit_abstract(m_cur, e)
+                nm = sorted(efx.reachable(m_cur))
+                snaps = [efx.snapshot(ns, b, nm) for b in builds]
+                d = []
+                for other in snaps[1:]:
+                    d += [x for x in differing(snaps[0], other, nm) if x not in d]
+                try:
+                    at_creation = efx.snapshot(ns, efx.build(ns, m_cur), nm)
+                    for sn_ in snaps:
+                        d += [x for x in differing(at_creation, sn_, nm) if x not in d]
+                except Exception:
+                    pass
+                seq += 1
+                events.append({"tid": tid, "seq": seq, "ev": "Sibling", "seed": seed,
+                               "variant": f"value-given-by-an-edit-on-several-builds({model[n]['cls']}.{a})", "differs": d})
+                out.nontrivial.add((seed, "edit-on-builds", n, a))
         # other hash seeds, other processes
         hash_seeds = [1, 2] if tier == "quick" else [1, 2, 3, 5, 8, 13, 21, 34]
         seeds = sorted(refs)[: (10 if tier == "quick" else 120)]
